@@ -23,8 +23,13 @@ func VerifC16Keys() {
 	tf := tfs[int(rt.Fix(rt.Int("timeframe", 0, int64(len(tfs)-1))))]
 	attr := attrs[int(rt.Fix(rt.Int("attrgroup", 0, int64(len(attrs)-1))))]
 	key := sym + "/" + tf + "/" + attr
-	if rt.Fix(rt.Int("extra_component", 0, 1)) == 1 {
-		key += "/../../../escape"
+	switch rt.Fix(rt.Int("extra_component", 0, 3)) {
+	case 1:
+		key += "/../../../escape" // climbs back to the root
+	case 2:
+		key += "/../../../../escape" // climbs out of it
+	case 3:
+		key += "/../../../.."
 	}
 	rt.ObserveS("key", key)
 	tbk := io.NewTimeBucketKey(key)
